@@ -100,10 +100,10 @@ PROPS = {
         "Machine-checked proof at FSM level plus a totality monitor on the implementation: every accessor of every observed state is called under recover and compared with the model view.",
         "node-level recording rules (voucher recorded only after a successful send, etc.) are in Node.v, tied by nodeapi with direct monitors",
         corr=NODE_CORR),
-    "C14": P("props/C14.v", ["monitor"],
+    "C14": P("props/C14.v", ["monitor", "nodemonitor"],
         "Coq theorems over every schedule of a small-step model of channelmonitor.go (events, debounced call, restart loop positions, ConnectTo/Restart results, timers, spawned Shutdown as labels): one call in flight, queued restart performed once, attempts since the last data event bounded by the limit, close at most once, timers close iff they fire armed on a live monitor, shutdown after an ending event silences everything; the real monitor over a gated recording monitorAPI double is compared after every macro step, with direct monitors (overlap, double close, bound, lost queued restart, timers)",
         "Machine-checked proof over all schedules of the hand-written model; the model is tied to channelmonitor.go by enumerated failure patterns, queued-restart placements, data-reset rounds, real-timer cases and generated schedules, each macro step proved to be a schedule of the model.",
-        "real time is abstracted (a timer firing is a label; the harness uses real short timers and discards, never judges, cases whose prefix ran late); the debounce library's coalescing of error bursts is not exercised (one error per step); interleavings inside a macro step (e.g. a data event between the counter increment and ConnectTo) are covered by the theorems but cannot be forced on the real code",
+        "real time is abstracted (a timer firing is a label; the harness uses real short timers and discards, never judges, cases whose prefix ran late); the debounce library's coalescing of error bursts is not exercised (one error per step); the wiring of the monitor into the real manager (RestartDataTransferChannel re-entering AddPushChannel / AddPullChannel, close through the channel FSM) is covered by the enumerated nodemonitor suite with direct monitors only; interleavings inside a macro step (e.g. a data event between the counter increment and ConnectTo) are covered by the theorems but cannot be forced on the real code",
         corr=["corr/MonitorCorr.v"]),
 }
 
